@@ -70,7 +70,8 @@ def gen_cases(ctx):
     feats = ["kind:" + k for k in enumgen.KIND_NAMES] + ["prefixed", "unprefixed", "accidental-prefix", "multi-file", "placeholder", "carried"]
     for i in range(n):
         f = feats[i] if i < len(feats) else (ctx.rng.choice(feats) if ctx.rng.random() < 0.25 else None)
-        en = g.enum("wf", f)
+        shape = "wf" if f or ctx.rng.random() < 0.75 else ctx.rng.choice(["neg", "neg", "big"])     # negative / > MaxInt64 constants
+        en = g.enum(shape, f)
         out.append(make_cases(ctx, "p%d" % i, en, list(FLAGSETS[i % len(FLAGSETS)])))
     return out
 
@@ -143,7 +144,7 @@ def run(ctx, obl):
                     v.setdefault("sources", c.get("files"))
                     v.setdefault("enum", c["en"])
                     v.setdefault("flags", c["flags"])
-    res.rule = ("enums of the C04 grammar (generation-successful region; the enum-level failures are reported under C04), one per case, cycling "
+    res.rule = ("enums of the C04 grammar (negative constants and constants above MaxInt64 included), one per case, cycling "
                 "through all 2^3 codec flag sets plus `-sql -gorm` and `-json -text -sql -gorm` (gorm.io/gorm is a two-type stub module); the real "
                 "json.Marshal/Unmarshal, encoding.TextMarshaler/TextUnmarshaler, driver.DefaultParameterConverter/driver.Valuer/sql.Scanner and "
                 "shoot.ParseEnum/TryParseEnum/IsEnum are executed on: every declared (trimmed) name, lower/upper/swapped case variants, constant names "
@@ -153,7 +154,7 @@ def run(ctx, obl):
                 "integers outside the type. non-trivial = distinct (enum, flag set) with at least two constants")
     res.assumptions = ["encoding/json string encode/decode are inverse on ASCII identifiers; a JSON document is classified by Python's json module",
                        "a SQL text column hands Scan the bytes of the string that Value returned (Scan(Value()) itself is a string and is rejected by design of the template)",
-                       "int and uint are 64 bit wide", "enum-level failures (negative values, values above MaxInt64) are C04's findings and are not re-tested here"]
+                       "int and uint are 64 bit wide"]
     return res
 
 
